@@ -52,19 +52,18 @@ def dget (d : Dict) (k : String) : Option Val := d.lookup k
 recursion budget of the model (`Props/C04.lean` proves it never appears with the stated fuel). -/
 inductive Err
   | fuel
-  | attributeError      -- a kid that is neither a reference nor an integer: `obj.objid`
   | objectNotFound      -- `document.getobj(n)` for an integer kid naming no object
-  | typeError           -- `float(x)` / iteration of a non-number / non-array box value
+  | unmodelled          -- `catalog["Pages"]` written as a direct dictionary (outside the model, never generated)
   deriving DecidableEq, Inhabited
 
 def Err.toString : Err → String
   | .fuel => "fuel"
-  | .attributeError => "AttributeError"
   | .objectNotFound => "PDFObjectNotFound"
-  | .typeError => "TypeError"
+  | .unmodelled => "unmodelled"
 
-/-- Longest chain of references-to-references followed by `resolve1` in the model; a longer chain
-(in particular a reference cycle, on which the Python loop does not return: property C13) yields null. -/
+/-- Longest chain of references-to-references followed by `resolve1` in the model. `resolve1` returns
+`None` on a circular chain (cycle guard); every cycle exhausts this fuel, which yields null as well.
+A non-circular chain longer than this is outside the model. -/
 def refFuel : Nat := 8
 
 /-- `pdftypes.resolve1`: follow references; a missing object is null. -/
@@ -119,17 +118,20 @@ structure Walk where
   err : Option Err
   deriving Inhabited
 
-/-- First lines of `depth_first_search`: object id and dictionary of `obj`. -/
-def nodeOf (g : Store) (kid : Atom) : Except Err (Nat × Dict) :=
+/-- First lines of `depth_first_search`: object id and dictionary of `obj`. A kid that is neither a
+reference nor an integer has no object id (`getattr(obj, "objid", None)`) and, being no
+dictionary, `dict_value` makes it `{}`: `none`. (Direct dictionaries inside a Kids array are
+outside the model's value space.) -/
+def nodeOf (g : Store) (kid : Atom) : Except Err (Option (Nat × Dict)) :=
   match kid with
-  | .ref n => .ok (n, dictValue g (.atom (.ref n)))
+  | .ref n => .ok (some (n, dictValue g (.atom (.ref n))))
   | .int i =>
     if 0 ≤ i then
       match g i.toNat with
-      | some _ => .ok (i.toNat, dictValue g (.atom (.ref i.toNat)))
+      | some _ => .ok (some (i.toNat, dictValue g (.atom (.ref i.toNat))))
       | none => .error .objectNotFound
     else .error .objectNotFound
-  | _ => .error .attributeError
+  | _ => .ok none
 
 /-- The `for child in list_value(Kids): yield from depth_first_search(child, props, visited)` loop,
 over an arbitrary visitor of one child. An exception ends the loop. -/
@@ -149,7 +151,8 @@ def visit (g : Store) : Nat → Atom → Dict → List Nat → Walk
   | f + 1, kid, parent, vis =>
     match nodeOf g kid with
     | .error e => ⟨[], vis, some e⟩
-    | .ok (id, props0) =>
+    | .ok none => ⟨[], vis, none⟩    -- `{}` has no Type: nothing is yielded, nothing is marked visited
+    | .ok (some (id, props0)) =>
       if id ∈ vis then ⟨[], vis, none⟩
       else
         let vis' := id :: vis
@@ -171,25 +174,23 @@ structure Page where
   marker : Option Int
   deriving DecidableEq, Inhabited
 
-/-- `float(resolve1(val))`. -/
-def numOf (g : Store) (a : Atom) : Except Err Rat :=
+/-- `float(resolve1(val))`; `none` = TypeError (caught by `parse_rect`). -/
+def numOf (g : Store) (a : Atom) : Option Rat :=
   match resolve g refFuel (.atom a) with
-  | .val (.atom (.int i)) => .ok (i : Rat)
-  | .val (.atom (.real q)) => .ok q
-  | _ => .error .typeError
+  | .val (.atom (.int i)) => some (i : Rat)
+  | .val (.atom (.real q)) => some q
+  | _ => none
 
-/-- `parse_rect(resolve1(val) for val in resolve1(value))` then `_normalize_rect`:
-`ok none` is the PDFValueError path (the caller substitutes its default). -/
-def parseBox (g : Store) (v : Val) : Except Err (Option Rect) :=
-  match resolve g refFuel v with
-  | .val (.arr [a, b, c, d]) =>
+/-- `parse_rect(resolve1(val) for val in list_value(value))` then `_normalize_rect`:
+`none` is the PDFValueError path (not an array, not four elements, a non-number), on which the
+caller substitutes its default. -/
+def parseBox (g : Store) (v : Val) : Option Rect :=
+  match listValue g v with
+  | [a, b, c, d] =>
     match numOf g a, numOf g b, numOf g c, numOf g d with
-    | .ok x0, .ok y0, .ok x1, .ok y1 => .ok (some (normalize_rect (x0, y0, x1, y1)))
-    | _, _, _, _ => .error .typeError
-  | .val (.arr _) => .ok none          -- wrong number of elements: ValueError -> PDFValueError
-  | .val (.dict _) => .ok none         -- iterating a dictionary yields its keys: ValueError
-  | .node _ => .ok none
-  | .val (.atom _) => .error .typeError -- not iterable
+    | some x0, some y0, some x1, some y1 => some (normalize_rect (x0, y0, x1, y1))
+    | _, _, _, _ => none
+  | _ => none
 
 /-- `int_value(x)` (non-strict): 0 for anything that is not an integer. -/
 def intValue (g : Store) (v : Val) : Int :=
@@ -207,29 +208,24 @@ def markerOf (g : Store) (v : Option Val) : Option Int :=
     | _ => none
 
 /-- `PDFPage.__init__` as a function of the four inheritable entries of the page dictionary. -/
-def mkPage (g : Store) (id : Nat) (res mb cb rot : Option Val) : Except Err Page :=
-  let mediabox : Except Err Rect :=
+def mkPage (g : Store) (id : Nat) (res mb cb rot : Option Val) : Page :=
+  let mbox : Rect :=
     match mb with
-    | none => .ok US_LETTER
-    | some v => (fun o => o.getD US_LETTER) <$> parseBox g v
-  match mediabox with
-  | .error e => .error e
-  | .ok mbox =>
-    let cropbox : Except Err Rect :=
-      match cb with
-      | none => .ok mbox
-      | some v => (fun o => o.getD mbox) <$> parseBox g v
-    match cropbox with
-    | .error e => .error e
-    | .ok cbox =>
-      let r := match rot with
-        | none => ROTATE_DEFAULT
-        | some v => intValue g v
-      .ok ⟨id, norm_rotate r, mbox, cbox, markerOf g res⟩
+    | none => US_LETTER
+    | some v => (parseBox g v).getD US_LETTER
+  let cbox : Rect :=
+    match cb with
+    | none => mbox
+    | some v => (parseBox g v).getD mbox
+  let r := match rot with
+    | none => ROTATE_DEFAULT
+    | some v => intValue g v
+  ⟨id, norm_rotate r, mbox, cbox, markerOf g res⟩
 
+/-- Constructing a page raises nothing in the model's value space. -/
 def pageOfRaw (g : Store) (p : RawPage) : Except Err Page :=
-  mkPage g p.id (dget p.attrs "Resources") (dget p.attrs "MediaBox") (dget p.attrs "CropBox")
-    (dget p.attrs "Rotate")
+  .ok (mkPage g p.id (dget p.attrs "Resources") (dget p.attrs "MediaBox") (dget p.attrs "CropBox")
+    (dget p.attrs "Rotate"))
 
 /-- Construct the pages one after the other; the first exception ends the iteration. -/
 def finish {α : Type} (mk : α → Except Err Page) : List α → Option Err → List Page × Option Err
@@ -248,7 +244,8 @@ def treeWalk (g : Store) (fuel : Nat) (catalog : Dict) : Walk :=
   match dget catalog "Pages" with
   | none => ⟨[], [], none⟩
   | some (.atom a) => visit g fuel a catalog []
-  | some _ => ⟨[], [], some .attributeError⟩
+  | some (.arr _) => ⟨[], [], none⟩              -- `dict_value` of an array is `{}`
+  | some (.dict _) => ⟨[], [], some .unmodelled⟩
 
 /-- The fallback scan `for objid in xref.get_objids(): obj = getobj(objid); if dict and Type is Page`. -/
 def fallback (g : Store) (ids : List Nat) : List RawPage :=
